@@ -20,7 +20,10 @@ fn v(g: &'static str, evk: Option<EvKind>, msg: String) -> Viol {
 
 #[derive(Clone, Debug)]
 struct ObsEv {
+    /// first record of the event (Create for gates, Arrive otherwise)
     first_seq: u32,
+    /// first Arrive record
+    arrive_seq: Option<u32>,
     pass_seq: Option<u32>,
     dg: u64,
     ent: u32,
@@ -73,7 +76,10 @@ pub fn check(prog: &Prog, kind: Kind, plan: &Plan, refrun: &RefRun, refnp: &RefR
     for r in &obs.log {
         match r.ph {
             Ph::Create | Ph::Arrive | Ph::Pass => {
-                let e = oev.entry((r.ev, r.occ)).or_insert(ObsEv { first_seq: r.seq, pass_seq: None, dg: r.dg, ent: r.ent });
+                let e = oev.entry((r.ev, r.occ)).or_insert(ObsEv { first_seq: r.seq, arrive_seq: None, pass_seq: None, dg: r.dg, ent: r.ent });
+                if r.ph == Ph::Arrive && e.arrive_seq.is_none() {
+                    e.arrive_seq = Some(r.seq);
+                }
                 if r.ph == Ph::Pass {
                     e.pass_seq = Some(r.seq);
                     e.ent = r.ent;
@@ -330,6 +336,9 @@ fn order_checks(
             Some(o) => o,
             None => continue,
         };
+        // a gate created inside a block capture starts, as far as its branch is concerned, at its first poll
+        let start = if e.created_in_capture { oe.arrive_seq.or(oe.pass_seq).unwrap_or(oe.first_seq) } else { oe.first_seq };
+        let oe = &ObsEv { first_seq: start, arrive_seq: oe.arrive_seq, pass_seq: oe.pass_seq, dg: oe.dg, ent: oe.ent };
         let mut key: Vec<u32> = Vec::new();
         for (l, t) in e.tag.iter().enumerate() {
             key.push(t.inv);
